@@ -1020,6 +1020,13 @@ class ExprMixin:
             if self.spec:
                 yield st, z3.BoolVal(False)
             return
+        if isinstance(t, TRef) and self.ct.method(t.cls, "__contains__"):
+            # `x in obj`: the class's own __contains__ (through its contract, like any other call)
+            m_ = self.ct.method(t.cls, "__contains__")
+            fr = FuncRef(self.ct.classes[m_[0]].module, f"{m_[0]}.__contains__", bound_self=cont, cls=t.cls)
+            for st1, r_ in self.call_function(st, fr, [a], {}, node):
+                yield st1, truth(self.as_value(r_))
+            return
         if isinstance(t, TOpaque) or isinstance(a.t, TOpaque):
             self.note_assumed(f"membership test involving an opaque value: {ast.unparse(node)[:60]}")
             self.opq_may_raise(st, "membership test on a value of unknown type")
